@@ -32,7 +32,7 @@ def shards(tier):
 def gates(c, tier):
     need = ["call:partial-pending-completes>=2-leaves-tail", "call:empty-residue", "cut:inside-header", "chunk:empty", "role:client", "role:server",
             "chunk:bytearray-overwritten", "chunk:memoryview", "partition:single-exhaustive", "partition:pairs-exhaustive", "partition:bytewise",
-            "probe:compared", "big-entry"]
+            "probe:compared", "big-entry", "stream:alternative-length-forms"]
     return [f"never observed {k}" for k in need if c.get(k, 0) == 0]
 
 
@@ -91,6 +91,23 @@ def g_scenario(r, prof, big=False):
         msgs = [("ExtendedResponse", 1, ((0, "", "", None), None, None), ())]
         setup = [("extended",)]
     return {"role": role, "setup": setup, "msgs": msgs}
+
+
+def encode_stream(msgs, r, alt):
+    """Reference encodings; alt=True: valid non-minimal long length forms at random nodes (the 30 84 00 00 xx xx style
+    Active Directory writes), so that cuts can fall inside padded length octets."""
+    if not alt:
+        return [rfc4511.encode(a) for a in msgs]
+    from vf.props.c04 import _lenform, _ser, all_nodes
+
+    out = []
+    for a in msgs:
+        root = rfc4511.Enc().message(a)
+        for n, d in all_nodes(root):
+            if d == 0 or r.random() < 0.3:
+                _lenform(n, r.choice(["L82", "L83", "L84", "Lpad", "L84"]), r)
+        out.append(_ser(root))
+    return out
 
 
 def mk_session(sc):
@@ -161,6 +178,7 @@ def run_case(sc, stream: bytes, cuts, chunk_modes_seed, baseline=None):
     sess = mk_session(sc)
     returned = []
     snaps = []
+    kept_lists = []  # (list object returned by receive, its length and member identities at return time)
     delivered = b""
     pending_before = 0
     for ch in C.split(stream, cuts):
@@ -180,6 +198,7 @@ def run_case(sc, stream: bytes, cuts, chunk_modes_seed, baseline=None):
         if scribble:
             scribble()
             obs["chunk:bytearray-overwritten" if mode == 1 else "chunk:memoryview"] = 1
+        kept_lists.append((res, len(res), [id(m) for m in res]))
         for m in res:
             returned.append(m)
             snaps.append(av.abstract(m))
@@ -192,6 +211,10 @@ def run_case(sc, stream: bytes, cuts, chunk_modes_seed, baseline=None):
             obs["call:partial-pending-completes>=2-leaves-tail"] = 1
         if tail == 0:
             obs["call:empty-residue"] = 1
+    for lst, n0, ids0 in kept_lists:
+        if len(lst) != n0 or [id(m) for m in lst] != ids0:
+            out.append(("returned-list-changed-later", f"a list returned by an earlier receive call had {n0} messages and now has {len(lst)} (later deliveries rewrote it)"))
+            break
     # overall equality with the originals
     if len(returned) != len(expect):
         out.append(("lost-or-duplicated", f"{len(expect)} messages sent, {len(returned)} returned"))
@@ -250,7 +273,9 @@ def run_shard(ctx: Ctx, acc: Acc):
         r = ctx.rng(i)
         big = (i == 1)
         sc = g_scenario(r, gv.QUICK if i % 7 == 0 else prof, big=big)
-        encs = [rfc4511.encode(a) for a in sc["msgs"]]
+        encs = encode_stream(sc["msgs"], r, alt=(i % 3 == 2))
+        if i % 3 == 2:
+            acc.count("stream:alternative-length-forms")
         stream = b"".join(encs)
         bounds = list(itertools.accumulate(len(e) for e in encs))
         try:
@@ -300,7 +325,8 @@ def run_shard(ctx: Ctx, acc: Acc):
             for k, v in obs.items():
                 acc.count(k, v)
             for key, what in vio:
-                acc.violation(key, what, {"scenario": sc, "cuts": cuts, "modes_seed": f"{ctx.seed}:{ctx.shard}:{i}:{label}:{cuts[:4]}"})
+                acc.violation(key, what, {"scenario": sc, "cuts": cuts, "modes_seed": f"{ctx.seed}:{ctx.shard}:{i}:{label}:{cuts[:4]}",
+                                          "encodings": encs if total < 20000 else None})
         if i < 2 and not big:
             acc.sample({"role": sc["role"], "messages": len(encs), "stream": stream[:120], "example_cuts": parts[min(5, len(parts) - 1)][1][:10]})
 
@@ -308,7 +334,7 @@ def run_shard(ctx: Ctx, acc: Acc):
 def replay(w):
     sc = w["scenario"]
     sc = {"role": sc["role"], "setup": [tuple(s) for s in sc["setup"]], "msgs": [to_tuple(m) for m in sc["msgs"]]}
-    stream = b"".join(rfc4511.encode(a) for a in sc["msgs"])
+    stream = b"".join(bytes(e) for e in w["encodings"]) if w.get("encodings") else b"".join(rfc4511.encode(a) for a in sc["msgs"])
     try:
         base = baseline_for(sc, stream)
     except Exception as e:
